@@ -17,6 +17,7 @@ scan <text>                                   -> items
 sheet <op>*                                   -> one result per op, then the final rule list
 tokesc <unrepresentable code points> <text>   -> g=<guard> A=<tokens of the text> B=<tokens of the escaped text>
                                                  (token = type/value/source span; `Tok.tokenize`, partial-sheet mode)
+tokescf <unrepresentable code points> <text>  -> A=… B=… in full-sheet mode (type/value)
 first <unrepresentable code points> <text>    -> g=<guard> then per production name:first(text):first(escaped):elen
 ```
 `<override>`, `<parent>`, `<enc>`, `<http>`: `N` = None, otherwise a dotted-hex string (`-` = empty string).
@@ -150,6 +151,21 @@ def cmdTokEsc (u t : List Nat) : String :=
     " A=" ++ showToks (CssVerif.Tok.tokenize t false true) ++
     " B=" ++ showToks (CssVerif.Tok.tokenize (escape rep t) false true)
 
+def showTokV (it : CssVerif.Tok.Item) : String := it.typ ++ "/" ++ encCps it.value
+
+def showToksV (r : CssVerif.Tok.Res) : String :=
+  let items := r.tokens
+  let body := if items.isEmpty then "-" else ",".intercalate (items.map showTokV)
+  match r.stop with
+  | .done _ _ => body
+  | _ => body ++ ",STOP"
+
+/-- full-sheet mode (`fullsheet=True`): type and value of every token, of the text and of the escaped text -/
+def cmdTokEscF (u t : List Nat) : String :=
+  let rep := fun c => !u.contains c
+  "A=" ++ showToksV (CssVerif.Tok.tokenize t true true) ++
+    " B=" ++ showToksV (CssVerif.Tok.tokenize (escape rep t) true true)
+
 def showFirst : Option Nat → String
   | none => "N"
   | some l => toString l
@@ -187,6 +203,9 @@ def handle (line : String) : String :=
   | "sheet" :: ops => CssVerif.EncSheet.sheetCmd ops
   | ["tokesc", u, t] => match decCps u, decCps t with
       | some u, some t => cmdTokEsc u t
+      | _, _ => "bad-op"
+  | ["tokescf", u, t] => match decCps u, decCps t with
+      | some u, some t => cmdTokEscF u t
       | _, _ => "bad-op"
   | ["first", u, t] => match decCps u, decCps t with
       | some u, some t => cmdFirst u t
